@@ -328,7 +328,7 @@ func loopHeaders(fn *ssa.Function) []*ssa.BasicBlock {
 }
 
 // symbolicUnrollCap bounds the unrolled iterations of a contract-less loop during which a symbolic decision was made.
-const symbolicUnrollCap = 24
+const symbolicUnrollCap = 10
 
 func (fr *Frame) bindValues(lc *LoopContract, b *ssa.BasicBlock) []Value {
 	var out []Value
